@@ -22,3 +22,11 @@ let () = register "kfdw" (fun () ->
   print_milp (encode_kfd_given i ws ko))
 let () = register "kpc" (fun () ->
   let i = next_path_inst () in let ign = next_list next_edge in print_milp (encode_kpc i ign))
+
+(* the same three encoders compared with the implementation's LP by the verified checker *)
+let () = register "kfd_eq" (fun () -> let m = encode_kfd (next_kfd_inst ()) in equiv_report m)
+let () = register "kfdw_eq" (fun () ->
+  let i = next_kfd_inst () in let ws = next_list next_q in let ko = next_nat () in
+  equiv_report (encode_kfd_given i ws ko))
+let () = register "kpc_eq" (fun () ->
+  let i = next_path_inst () in let ign = next_list next_edge in equiv_report (encode_kpc i ign))
